@@ -218,4 +218,19 @@ PROPS = {
                                      'the harness abstraction of the JSON response (names to numbers, defaultValue text read back by a small reader, sorting of set-valued lists)'],
         'assumptions': ['a string default value is answered raw (Who, not "Who"): pinned by TestResolveInterfaceInput and read accordingly', 'schemas without a query operation cannot be introspected at all and are not generated'],
     },
+    'C15': {
+        'level': 'proof',
+        'correspondence': 'Sdl.write_desc == what the library prints for a description at indentation 0, 1 and 2 (byte for byte); the extracted reader Sdl.read_desc_text applied to the library output returns the description; whole-schema round trip and the ggqlgen -w / -e outputs are checked directly on the real code',
+        'rule': ('generated accepted schemas (as for C13) whose descriptions (types, fields, arguments, enum values, input fields, directives and their arguments) and default values are then replaced through the exported fields: descriptions of 1-4 lines built from letters, quotes, doubled and tripled and quadrupled quotes, backslashes, backslash-quote, backslash-n, non-ASCII text, emoji, #, braces, tabs inside a line, back quotes; '
+                 'string defaults with quotes, backslashes, every control character class, triple quotes, non-ASCII; Float defaults incl. 0.1, 1e21, 1e-7, 17-digit values, the largest and the smallest double; Int and Int64 defaults; nested list and input-object defaults. '
+                 'Per case: Root.SDL(false,true) is loaded into a fresh root; the two roots are dumped (every description, default, wrapper, directive use) and compared; the fresh root is printed again and the texts compared; the per-type printed forms are concatenated and loaded likewise; the ggqlgen binary built from the working tree rewrites (-w) and embeds (-e) the file, the results are read (the Go constant evaluated as a compiler would) and loaded likewise; '
+                 'six of the descriptions are printed alone at the three indentations and compared with the model printer and read back with the model reader. non-trivial = every case; distinct by input text.'),
+        'explanation': ('Theorems C15_description_round_trip (every canonical description, every indentation, any following text: readDesc returns exactly the description written by writeDesc), C15_description_layout, C15_string_constant_round_trip (every string constant written by writeString is read back rune for rune by readString) - Coq, byte level, all strings, no bound. '
+                        'PARTIAL: the structural part of the printers and of the SDL parser (definitions, wrappers, directive uses, numbers, lists, objects, table order) has no byte-level model; its round trip is checked on the real code for every generated schema. A whole Float default that comes back as an integer is counted as the same default (numeric value). '
+                        'Defects repaired: descriptions printed unescaped (6a9361f), ggqlgen dropped directive definitions (e7b7a4c), ggqlgen -e broke on a back quote (71f326a).'),
+        'trusted_base': COMMON_TB + ['modelled rather than verified: base.go writeDesc, value.go writeString, parser.go readString/readEscaped/readDesc; Unicode white space other than ASCII at line ends is outside the model of TrimSpace and not generated',
+                                     'the harness dump of a root (exported fields and the verif accessors) as the notion of "same schema"; go/parser to read the file ggqlgen -e writes',
+                                     'the ggqlgen binary is built from /repo/cmd/ggqlgen by ./check --setup'],
+        'assumptions': ['descriptions are canonical (non-empty lines, no white space at line ends, no NUL): exactly those readDesc can return', 'runes >= 0x80 are written as their UTF-8 bytes, all >= 0x80 (Go utf8.EncodeRune)'],
+    },
 }
